@@ -20,6 +20,9 @@ pub struct Case {
     /// which group (by rank among groups of size >= 2, largest first) gets the barrier
     pub group_pick: u16,
     pub tokio_workers: usize,
+    /// a `log tail --stdout --stderr` listener is attached during the run
+    #[serde(default)]
+    pub listener: bool,
 }
 
 pub fn strategy(max_n: usize) -> impl Strategy<Value = Case> {
@@ -38,8 +41,9 @@ pub fn strategy(max_n: usize) -> impl Strategy<Value = Case> {
         any::<u16>(),
         any::<u16>(),
         proptest::sample::select(vec![1usize, 2, 4, 16]),
+        proptest::bool::weighted(0.3),
     )
-        .prop_map(|(n, before, after, small, picks, ncmd, bc, gp, tw)| {
+        .prop_map(|(n, before, after, small, picks, ncmd, bc, gp, tw, listener)| {
             let mut layers = vec![];
             for i in 0..before {
                 layers.push(small[i % small.len()]);
@@ -55,6 +59,7 @@ pub fn strategy(max_n: usize) -> impl Strategy<Value = Case> {
                 barrier_cmd: pick(bc, ncmd),
                 group_pick: gp,
                 tokio_workers: tw,
+                listener,
             }
         })
 }
@@ -94,7 +99,20 @@ fn attempt(case: &Case, w: usize, timeout_ms: u64) -> Result<(bool, CaseInfo, Va
         args.push(c);
     }
     env.default_timeout = std::time::Duration::from_millis(timeout_ms * 3 + 60_000);
+    let mut tail = None;
+    if case.listener {
+        let mut t = env.mr_spawn(&["log", "tail", "--stdout", "--stderr"], &[]);
+        if !bb::wait_listening(env.log_port, std::time::Duration::from_secs(20)) {
+            t.kill_group();
+            return inconclusive("log tail did not start listening".into());
+        }
+        tail = Some(t);
+    }
     let out = env.mr(&args);
+    if let Some(mut t) = tail {
+        t.kill_group();
+        let _ = t.wait(std::time::Duration::from_secs(10));
+    }
     let traces = env.traces();
     let timeouts: Vec<String> = traces.iter().filter(|t| t.barrier_timeout).map(|t| env.rel(&t.cwd)).collect();
     let position = if gi == 0 { "first" } else if gi + 1 == groups.len() { "last" } else { "middle" };
@@ -113,6 +131,7 @@ fn attempt(case: &Case, w: usize, timeout_ms: u64) -> Result<(bool, CaseInfo, Va
         .class(&format!("position={}", position))
         .class(&format!("command#{}", case.barrier_cmd))
         .class(&format!("tokio-workers={}", case.tokio_workers))
+        .class_if(case.listener, "tail-listener-attached")
         .inv(env.invocations);
     let obs = json!({"group": members, "timeouts": timeouts, "run": out.brief()});
     if out.timed_out || !timeouts.is_empty() {
@@ -160,7 +179,7 @@ pub fn run(ctx: &mut Ctx) {
     ctx.hang_limit = std::time::Duration::from_secs(600);
     ctx.shrink_budget = std::time::Duration::from_secs(1);
     ctx.rule = "layered configuration with one layer of n mutually independent targets (n in 2..24, and the size boundaries 31-34 and 63-66; thorough: up to 130) placed first / in the middle / last, \
-1-3 commands, tokio worker threads in {1,2,4,16}; the groups are read from `analyze --target-groups`, one group of size >= 2 is chosen and all its members run the helper in \
+1-3 commands, tokio worker threads in {1,2,4,16}, 30% with a `log tail` listener attached; the groups are read from `analyze --target-groups`, one group of size >= 2 is chosen and all its members run the helper in \
 barrier mode (wait until all members have started) under the 1st-3rd command. oracle: run exits 0, every member started, no barrier time-out (20 s, confirmed with 40 s). \
 non-trivial = group size >= 3; distinct by SHA-256"
         .to_string();
